@@ -549,6 +549,11 @@ Definition kill (w : world) : world :=
 Definition pending (w : world) : list move :=
   match w_ctx w with Some c => if w_open w then c_moves c else [] | None => [] end.
 
+(* Go: MetadataDefragContext.Init on a context object (used before or brand new): Algorithm zero
+   value means Full; c.moves = c.moves[:0]; c.immovableBlockCount = 0 *)
+Definition ctx_init (c0 : dctx) (algo : Z) : dctx :=
+  mkC (if algo =? 0 then 2 else algo) (firstn 0 (c_moves c0)) 0.
+
 Definition wstep (w : world) (o : wop) : world * wout :=
   if w_dead w then (w, OutDead) else
   match o with
@@ -575,10 +580,9 @@ Definition wstep (w : world) (o : wop) : world * wout :=
   | OpBegin algo mb ma reuse =>
     if w_open w then (w, OutBusy) else
     if (algo <? 0) || (2 <? algo) then (w, OutKind RError) else
-    let algo' := if algo =? 0 then 2 else algo in          (* Init: zero value means Full *)
     let c := match w_ctx w with
-             | Some c0 => if reuse =? 1 then mkC algo' (c_moves c0) (c_immovable c0) else mkC algo' [] 0
-             | None => mkC algo' [] 0
+             | Some c0 => if reuse =? 1 then ctx_init c0 algo else ctx_init (mkC 0 [] 0) algo
+             | None => ctx_init (mkC 0 [] 0) algo
              end in
     (mkW (w_st w) (Some c) true mb ma None false ps_zero false, OutKind ROk)
   | OpPass =>
@@ -600,7 +604,7 @@ Definition wstep (w : world) (o : wop) : world * wout :=
     | Some c, Some p =>
       if negb (w_open w) then (w, OutKind RError) else
       let r := complete_pass (w_st w) c p ds ord in
-      let w' := mkW (r_st r) (Some (r_ctx r)) true (w_max_bytes w) (w_max_allocs w) (Some (r_pass r)) false
+      let w' := mkW (r_st r) (Some (r_ctx r)) (w_begun w) (w_max_bytes w) (w_max_allocs w) (Some (r_pass r)) false
                     (ps_add (w_run w) (p_stats (r_pass r))) false in
       match r_kind r with
       | RPanic => (kill w, OutEnd RPanic [])
